@@ -47,3 +47,7 @@ package macat
 //@ func (*App).getOptions$15
 //@   ensures a.countSet ==> a.count == old(a.count)
 //@   ensures !a.countSet ==> a.count == -1
+//@
+//@ func (*App).Run
+//@   before call:ListenOptions#1 assert arg0 == addr && arg1 == opts && fresh(opts, "loop2:head")
+//@   before call:DialOptions#1 assert arg0 == addr && arg1 == opts && fresh(opts, "loop3:head")
